@@ -45,6 +45,8 @@ BOUNDS = {
                 '+1); comparators widths 1..4 (Equal also every mixed pair of widths 1..3); AnyEqual 1..4 inputs '
                 '(5 at w=1)',
 }
+for k in ('quick', 'thorough'):
+    BOUNDS[k] += '; also Bit above the most significant bit, every ordered pair of constant-comparison helpers on one wire, AnyEqual with 11..13 inputs'
 
 
 class Rejected(Exception):
